@@ -45,7 +45,8 @@ static int op_dest(toks_t *t)
     const char *s = t->tok[i];
     if (s[0] == 'S') {
       if (!strcmp(s, "Snull")) { outbuf = NULL; outsize = 0; declared = 0; }
-      else if (!strcmp(s, "Sreuse")) {
+      else if (!strcmp(s, "Sreuse") || !strcmp(s, "Sreuse0")) {
+        if (s[6]) outsize = 0;   /* the size handed back with a reused buffer is documented as ignored: 0 is a legal value */
         declared = outsize; /* pointer and *outsize as left by the previous image */
         if (nkept > 0 && kept[nkept - 1] == outbuf) nkept--;   /* handed back: no longer the caller's */
       }
